@@ -290,9 +290,11 @@ func StartBed(proto Case, up *client.Upstream, opts Options) (*Bed, error) {
 	rec := scripted.NewRecorder()
 
 	a, err := app.Start(app.Options{
-		Mode:             proto.Entry,
-		Config:           baseConfig(proto, opts.Trusted),
-		ConfigMutator:    func(conf *config.Configuration) *config.Configuration { return overridesMutator(proto, WWWMutator(conf)) },
+		Mode:   proto.Entry,
+		Config: baseConfig(proto, opts.Trusted),
+		ConfigMutator: func(conf *config.Configuration) *config.Configuration {
+			return overridesMutator(proto, WWWMutator(conf))
+		},
 		FactoryDecorator: scripted.Decorator(rec),
 	})
 	if err != nil {
